@@ -2,6 +2,11 @@
 # False-alarm soak: every claimed quick check on seeds $1..$2 (default 2..12); prints only failures and a summary.
 cd "$(dirname "$0")/.." || exit 2
 A=${1:-2}; B=${2:-12}
+# under `vp run --with-repo` build against the snapshot of /repo, so that edits to /repo (seeded runs) do not interfere
+if [ -n "$VP_RUN_REPO" ] && [ -d "$VP_RUN_REPO" ]; then
+  sed -i "s#path = \"/repo\"#path = \"$VP_RUN_REPO\"#" harness/Cargo.toml
+  echo "soak: building against $VP_RUN_REPO"
+fi
 [ -x work/target/debug/mila-harness ] || checks/setup.sh >/dev/null 2>&1
 bad=0; n=0
 for s in $(seq $A $B); do
